@@ -103,6 +103,7 @@ type DiffFile struct {
 type DiffHunk struct {
 	OldStart, OldLen, NewStart, NewLen int
 	Lines                              []string // with leading ' ', '-', '+'
+	NoEOL                              []bool   // Lines[i] is followed by "\ No newline at end of file"
 }
 
 // ParseUnified parses a multi-file unified diff.
@@ -147,7 +148,13 @@ func ParseUnified(text string) ([]DiffFile, error) {
 					return nil, fmt.Errorf("line %d: bad hunk line %q", i+1, hl)
 				}
 				h.Lines = append(h.Lines, hl)
+				h.NoEOL = append(h.NoEOL, false)
 				i++
+				if i < len(lines) && strings.HasPrefix(lines[i], "\\") {
+					// "\ No newline at end of file" belongs to the line before it
+					h.NoEOL[len(h.NoEOL)-1] = true
+					i++
+				}
 			}
 			if no != h.OldLen || nn != h.NewLen {
 				return nil, fmt.Errorf("hunk at line %d: length mismatch", i)
@@ -192,50 +199,71 @@ func parseHunkHeader(l string) (DiffHunk, error) {
 	return h, nil
 }
 
-// ApplyUnified applies one file's hunks to orig (LF lines). Context and
-// removed lines must match exactly.
+// ApplyUnified applies one file's hunks to orig with the semantics of patch(1):
+// a hunk line stands for its text followed by a newline, unless it is followed
+// by "\ No newline at end of file"; context and removed lines must match the
+// original byte for byte (carriage returns included).
 func ApplyUnified(orig string, df DiffFile) (string, error) {
-	hadNL := strings.HasSuffix(orig, "\n")
-	ol := strings.Split(orig, "\n")
-	if hadNL {
-		ol = ol[:len(ol)-1]
+	var ol []string // lines of orig WITH their terminators
+	for rest := orig; len(rest) > 0; {
+		i := strings.IndexByte(rest, '\n')
+		if i < 0 {
+			ol = append(ol, rest)
+			break
+		}
+		ol = append(ol, rest[:i+1])
+		rest = rest[i+1:]
 	}
+	// Hunks address lines of the ORIGINAL file. pkg/diff prints a change without
+	// any common line as a pure deletion followed by a pure insertion "at line 0",
+	// so hunks are ordered here by the original position they touch.
+	hunks := append([]DiffHunk(nil), df.Hunks...)
+	startOf := func(h DiffHunk) int {
+		if h.OldLen == 0 {
+			return h.OldStart
+		}
+		return h.OldStart - 1
+	}
+	sort.SliceStable(hunks, func(i, j int) bool {
+		si, sj := startOf(hunks[i]), startOf(hunks[j])
+		if si != sj {
+			return si < sj
+		}
+		return hunks[i].OldLen == 0 && hunks[j].OldLen != 0
+	})
 	var out []string
 	pos := 0 // index into ol
-	for _, h := range df.Hunks {
-		start := h.OldStart - 1
-		if h.OldLen == 0 {
-			start = h.OldStart
-		}
+	for _, h := range hunks {
+		start := startOf(h)
 		if start < pos || start > len(ol) {
 			return "", fmt.Errorf("hunk -%d,%d out of order or range", h.OldStart, h.OldLen)
 		}
 		out = append(out, ol[pos:start]...)
 		pos = start
-		for _, hl := range h.Lines {
+		for k, hl := range h.Lines {
+			text := hl[1:] + "\n"
+			if k < len(h.NoEOL) && h.NoEOL[k] {
+				text = hl[1:]
+			}
 			switch hl[0] {
 			case ' ':
-				if pos >= len(ol) || ol[pos] != hl[1:] {
-					return "", fmt.Errorf("context mismatch at old line %d: diff has %q", pos+1, hl[1:])
+				if pos >= len(ol) || ol[pos] != text {
+					return "", fmt.Errorf("context mismatch at old line %d: diff has %q", pos+1, text)
 				}
-				out = append(out, ol[pos])
+				out = append(out, text)
 				pos++
 			case '-':
-				if pos >= len(ol) || ol[pos] != hl[1:] {
-					return "", fmt.Errorf("removed line mismatch at old line %d: diff has %q", pos+1, hl[1:])
+				if pos >= len(ol) || ol[pos] != text {
+					return "", fmt.Errorf("removed line mismatch at old line %d: diff has %q", pos+1, text)
 				}
 				pos++
 			case '+':
-				out = append(out, hl[1:])
+				out = append(out, text)
 			}
 		}
 	}
 	out = append(out, ol[pos:]...)
-	res := strings.Join(out, "\n")
-	if len(out) > 0 {
-		res += "\n"
-	}
-	return res, nil
+	return strings.Join(out, ""), nil
 }
 
 // ---------------------------------------------------------------------------
